@@ -6,6 +6,7 @@ import PicoSVG.Proofs.PathForm
 import PicoSVG.Proofs.PathSim
 import PicoSVG.Proofs.PathSimAbs
 import PicoSVG.Proofs.PathSimShorthand
+import PicoSVG.Proofs.PathSimRel
 import PicoSVG.Spec.Shapes
 
 set_option linter.unusedSectionVars false
@@ -70,6 +71,13 @@ theorem absolute_preserves_curve_exact (cmds out : List (Cmd α)) (segs : List (
 theorem expandShorthand_preserves_curve (cmds out : List (Cmd α)) (segs : List (Spec.Seg α))
     (h : expandShorthand cmds = .ok out) (hi : Spec.interp cmds = some segs) : Spec.interp out = some segs :=
   PathSim.expandShorthand_interp cmds out segs h hi
+
+/-- C09 (relative): absolute → relative rewriting (the walk of `relative()`, before its leading letter is put back to `M`)
+    preserves the drawn segments under the same no-snapping condition; exactly at tolerance 0 -/
+theorem relative_preserves_curve (tol : α) (hns : ∀ p q : Pt α, (p == q) = false → ptAlmostEq tol p q = false)
+    (cmds out : List (Cmd α)) (segs : List (Spec.Seg α))
+    (h : relativeCore tol cmds = .ok out) (hi : Spec.interp cmds = some segs) : Spec.interp out = some segs :=
+  PathSim.relativeCore_interp tol hns cmds out segs h hi
 
 /-- any other rewrite built on the walk inherits the result as soon as its callback is sound command by command -/
 theorem sound_callback_preserves_curve (cb : Callback α) (hcb : PathSim.CbSound cb) (cmds out : List (Cmd α))
